@@ -109,7 +109,7 @@ def run(ctx):
     if not quick:
         jobs += list(D.deviation_docs([['**kern', '**text']], 3, (ctx.seed,), menu=['d', 'z', 'S0', 'J0', 'g', 'i']))
     jobs += token_skeleton_jobs(ctx.seed)
-    longs = D.long_docs(ctx.seed) + D.long_docs(ctx.seed + 4) + D.wide_docs(ctx.seed) + D.wide_docs(ctx.seed + 1)
+    longs = D.long_docs(ctx.seed) + D.long_docs(ctx.seed + 4) + D.wide_docs(ctx.seed) + D.wide_docs(ctx.seed + 1) + D.huge_docs(ctx.seed + 1)
     ctx.pmap(_repetitive_job, [ctx.seed, ctx.seed + 1], chunksize=1)
     ctx.pmap(_job, [[j] for j in longs] + list(X.chunks(jobs, 150)), chunksize=1)
 
